@@ -4,6 +4,8 @@ Property C06 — static metadata (columns, row bounds, triviality flags) is trut
 For every well-formed tree (any depth, all operations incl. join and chain) over truthful leaves.
 -/
 import DafRel.Lemmas.Metadata
+import DafRel.Bridge.Kernel
+import DafRel.Bridge.Tables
 
 namespace DafRel.Props.C06
 
@@ -58,6 +60,44 @@ theorem chain_prune_sound (σ : Leaves) (l r : Rel) (c : Cols) (hwf : (Rel.binar
     simp [sem, maxRows_zero_sound σ l hwf.1 htr.1 h]
   · intro h
     simp [sem, maxRows_zero_sound σ r hwf.2.1 htr.2 h]
+
+/-! ### Tie to the source: the row-bound formulas proved about are the ones in the Python code -/
+
+theorem bridge_slice_bounds (s : Nat) (e : Option Nat) (c : Cols) (tmin : Nat) (tmax : Option Nat) :
+    Gen.Slice_applied_min_rows (.int s) (Bridge.optN e) (.int tmin)
+      = .ok (.int ((UOp.slice s e).appliedMinRows tmin : Nat)) ∧
+    Gen.Slice_applied_max_rows (.int s) (Bridge.optN e) (Bridge.optN tmax)
+      = .ok (Bridge.optN ((UOp.slice s e).appliedMaxRows c tmax)) :=
+  ⟨Bridge.Slice_applied_min_rows_eq s e tmin, Bridge.Slice_applied_max_rows_eq s e c tmax⟩
+
+theorem bridge_dedup_bounds (c : Cols) (tmin : Nat) (tmax : Option Nat) :
+    Gen.Deduplication_applied_min_rows (.int tmin) = .ok (.int (UOp.dedup.appliedMinRows tmin : Nat)) ∧
+    Gen.Deduplication_applied_max_rows (.bool (!c.isEmpty)) (Bridge.optN tmax)
+      = .ok (Bridge.optN (UOp.dedup.appliedMaxRows c tmax)) :=
+  ⟨Bridge.Deduplication_applied_min_rows_eq tmin, Bridge.Deduplication_applied_max_rows_eq c tmax⟩
+
+theorem bridge_binary_bounds (a b : Nat) (x y : Option Nat) :
+    Gen.Chain_applied_min_rows (.int a) (.int b) = .ok (.int (BOp.chainMinRows a b : Nat)) ∧
+    Gen.Chain_applied_max_rows (Bridge.optN x) (Bridge.optN y) = .ok (Bridge.optN (BOp.chainMaxRows x y)) ∧
+    Gen.Join_applied_min_rows = .ok (.int 0) ∧
+    Gen.Join_applied_max_rows (Bridge.optN x) (Bridge.optN y) = .ok (Bridge.optN (JoinOp.appliedMaxRows x y)) :=
+  ⟨Bridge.Chain_applied_min_rows_eq a b, Bridge.Chain_applied_max_rows_eq x y, Bridge.Join_applied_min_rows_eq,
+   Bridge.Join_applied_max_rows_eq x y⟩
+
+theorem bridge_passthrough_bounds (p : Pred) (tmin : Nat) (tmax : Option Nat) :
+    Gen.Selection_applied_min_rows = .ok (.int ((UOp.sel p).appliedMinRows tmin : Nat)) ∧
+    Gen.Projection_applied_min_rows (.int tmin) = .ok (.int tmin) ∧
+    Gen.Calculation_applied_min_rows (.int tmin) = .ok (.int tmin) ∧
+    Gen.Reordering_applied_min_rows (.int tmin) = .ok (.int tmin) ∧
+    Gen.Reordering_applied_max_rows (Bridge.optN tmax) = .ok (Bridge.optN tmax) ∧
+    Gen.UnaryOperation_applied_max_rows (Bridge.optN tmax) = .ok (Bridge.optN tmax) :=
+  ⟨rfl, rfl, rfl, rfl, rfl, rfl⟩
+
+theorem bridge_triviality_flags (r : Rel) :
+    Gen.Relation_is_join_identity (.bool (!r.columns.isEmpty)) (Bridge.optN r.maxRows) (.int r.minRows)
+      = .ok (.bool r.isJoinIdentity) ∧
+    Gen.Relation_is_trivial (.bool r.isJoinIdentity) (Bridge.optN r.maxRows) = .ok (.bool r.isTrivial) :=
+  ⟨Bridge.Relation_is_join_identity_eq r, Bridge.Relation_is_trivial_eq r⟩
 
 /-! ### Non-vacuity: a concrete well-formed tree over a truthful leaf -/
 
